@@ -5,22 +5,26 @@ import PegVerif.Proofs.RefineComb
 -/
 namespace PegVerif
 
-variable {P : Program} {cfg : Cfg} {env : CEnv} {G : Grammar} {inp : List Sym}
+variable [MInv] {P : Program} {cfg : Cfg} {env : CEnv} {G : Grammar} {inp : List Sym}
 
+omit [MInv] in
 theorem CodeAt.cast {code a b c} (h : CodeAt code a c) (e : a = b) : CodeAt code b c := e ▸ h
 
+omit [MInv] in
 theorem Steps.cast {code pc s f a b s' f'} (h : Steps P cfg inp code pc s f a s' f') (e : a = b) :
     Steps P cfg inp code pc s f b s' f' := e ▸ h
 
 theorem Pre.move {code s p s1 p1} (hp : Pre env inp code s p) (hpos : s1.pos = p1)
-    (hple : p1 ≤ inp.length) (hlen : s1.ti ≤ s1.tree.length) (hm : s1.memo = []) :
+    (hple : p1 ≤ inp.length) (hlen : s1.ti ≤ s1.tree.length) (hm : MInv.ok s1.memo s1.maxTok.e) :
     Pre env inp code s1 p1 :=
   ⟨hp.uniq, hp.used, hpos, hple, hlen, hm⟩
 
+omit [MInv] in
 theorem jumps_cons (i : Instr) (c : Code) : jumps (i :: c) = i.target?.toList ++ jumps c := by
   simp only [jumps, List.filterMap_cons]
   cases h : i.target? <;> simp
 
+omit [MInv] in
 theorem jumps_nil : jumps [] = [] := rfl
 
 /-- Normal form of emitted code for the case analyses: a cons list with `++` re-associated. -/
@@ -290,7 +294,7 @@ theorem good_wrap_ok (hW : World P cfg env G inp) {w e : Expr} {r p p1 f1 evs}
     rw [hS.frame st.label (Nat.lt_succ_self _)]; simp [Frame.set, hp.pos]
   obtain ⟨hlive, hlen⟩ := treeAdd_live s1.tree ⟨r, p, s1.pos⟩ s1.ti hS.len
   refine ⟨doAdd cfg r p s1, fr1, ?_, ?_⟩
-  · refine ⟨by simp [doAdd, hS.pos], ?_, ?_, ?_, ?_, ?_, by simp [doAdd, hS.memo]⟩
+  · refine ⟨by simp [doAdd, hS.pos], ?_, ?_, ?_, ?_, ?_, ?_⟩
     · simp [doAdd, hS.ti]; omega
     · simp only [doAdd, hW.ast, ↓reduceIte, postorderL_cons, postorderL_nil, TokTree.postorder_node,
         List.append_nil]
@@ -299,6 +303,7 @@ theorem good_wrap_ok (hW : World P cfg env G inp) {w e : Expr} {r p p1 f1 evs}
     · intro n hn
       rw [hS.frame n (Nat.lt_succ_of_lt hn)]; simp [Frame.set]; omega
     · rw [doAdd_maxTok, hS.maxTok, hS.pos]; simp
+    · exact doAdd_memo_ok cfg r p s1 hS.memo
   · refine (Steps.next (s' := s) (f' := f) h1 (by simp [stepLocal])).trans ?_
     refine (Steps.next (s' := s) (f' := f.set st.label (s.pos, (f st.label).2)) h2 (by simp [stepLocal])).trans ?_
     refine hst.trans ?_
@@ -340,7 +345,7 @@ theorem good_wrap_act (hW : World P cfg env G inp) {w : Expr} {r p}
   obtain ⟨hlive, hlen⟩ := treeAdd_live s.tree ⟨r, s.pos, s.pos⟩ s.ti hp.len
   refine ⟨doAdd cfg r s.pos s, f, ?_, ?_⟩
   · refine ⟨by simp [doAdd, hp.pos], by simp [doAdd], ?_, by simpa [doAdd, hW.ast] using hlen,
-      fun _ _ => rfl, ?_, by simp [doAdd, hp.memo]⟩
+      fun _ _ => rfl, ?_, doAdd_memo_ok cfg r s.pos s hp.memo⟩
     · simp only [doAdd, hW.ast, ↓reduceIte, postorderL_cons, postorderL_nil, TokTree.postorder_node,
         List.append_nil]
       rw [hlive, hp.pos]; simp
